@@ -491,7 +491,7 @@ class VNormal(V):
         x = as_tensor(a[0])
         half_log_2pi = dom_real.apply(ctx, "log", dom_real.apply(ctx, "sqrt", 2 * dom_real.pi(ctx)))
         return E.pointwise(ctx, [x, self.loc, self.scale],
-                           lambda xv, m, s: -((E.to_real(xv) - E.to_real(m)) * (E.to_real(xv) - E.to_real(m))) / (2 * E.to_real(s) * E.to_real(s))
+                           lambda xv, m, s: -dom_real.rdiv(ctx, (E.to_real(xv) - E.to_real(m)) * (E.to_real(xv) - E.to_real(m)), 2 * E.to_real(s) * E.to_real(s))
                            - dom_real.apply(ctx, "log", E.to_real(s)) - half_log_2pi, sort="real")
 
 
@@ -773,3 +773,61 @@ E.METHODS.update({"inv_quad_logdet": m_inv_quad_logdet, "logdet": m_logdet, "cho
                   "root_decomposition": m_root_decomposition})
 T["tensor_method.root"] = None
 del T["tensor_method.root"]
+
+
+# ============================================================================ distances / misc ===========
+@op("torch.cdist")
+def _cdist(it, ctx, a, k):
+    """Euclidean distance matrix: cdist(x1, x2)[.., i, j] = sqrt(sum_k (x1[.., i, k] - x2[.., j, k])^2)"""
+    from . import dom_real
+    x1, x2 = a[0].frozen(), a[1].frozen()
+    d = E.pointwise(ctx, [E.unsqueeze(ctx, x1, -2), E.unsqueeze(ctx, x2, -3)], lambda u, v: (E.to_real(u) - E.to_real(v)) * (E.to_real(u) - E.to_real(v)), sort="real")
+    s = E.reduce_sum(ctx, d, -1)
+    return E.pointwise(ctx, [s], lambda x: dom_real.apply(ctx, "sqrt", x), sort="real")
+
+
+@op("torch.linalg.norm", "torch.norm")
+def _norm(it, ctx, a, k):
+    from . import dom_real
+    t = a[0].frozen()
+    dim = k.get("dim", a[1] if len(a) > 1 else None)
+    if dim is None:
+        raise Undecided("norm without dim")
+    sq = E.pointwise(ctx, [t], lambda x: E.to_real(x) * E.to_real(x), sort="real")
+    s = E.reduce_sum(ctx, sq, dim)
+    return E.pointwise(ctx, [s], lambda x: dom_real.apply(ctx, "sqrt", x), sort="real")
+
+
+@op("torch.addmm")
+def _addmm(it, ctx, a, k):
+    return it.binop(ctx, "+", a[0], E.matmul(ctx, a[1], a[2]))
+
+
+@op("torch.promote_types")
+def _promote(it, ctx, a, k):
+    return a[0]
+
+
+@op("linear_operator.operators.MatmulLinearOperator")
+def _MatmulLO(it, ctx, a, k):
+    r = E.matmul(ctx, a[0], a[1])
+    r.is_linop = True
+    r.linop_class = "MatmulLinearOperator"
+    return r
+
+
+def _equal_hook(it, ctx, a, k):
+    x, y = a
+    if x is y or x.meta.get("equal_to") is y or y.meta.get("equal_to") is x:
+        return TRUE
+    if x.meta.get("distinct_from") is y or y.meta.get("distinct_from") is x:
+        return FALSE
+    # derived tensors: equal when both were derived by the same operations from equal / identical sources is not
+    # tracked -- the contract states which of the two cases (same data / different data) a case covers
+    tag_x, tag_y = x.meta.get("equal_class"), y.meta.get("equal_class")
+    if tag_x is not None and tag_y is not None:
+        return VBool(tag_x == tag_y)
+    raise Undecided("torch.equal of tensors whose relation the contract did not fix")
+
+
+T["hook.torch.equal"] = _equal_hook
